@@ -30,6 +30,7 @@ type Guard struct {
 
 type LoopSpec struct {
 	AtBack     []*Clause
+	AtExit     []*Clause
 	Invariants []*Clause
 	Variant    *Clause
 }
@@ -430,6 +431,10 @@ func (cs *ContractSet) parseItem(file, pkgPath, header string, line int, clauses
 					// asserted whenever the loop goes round again (not assumed at the head)
 					x.Label = fmt.Sprintf("loop%d.back%d", n, len(ls.AtBack)+1)
 					ls.AtBack = append(ls.AtBack, x)
+				case "atexit":
+					// asserted on every edge that leaves the loop (normal exit and break alike)
+					x.Label = fmt.Sprintf("loop%d.exit%d", n, len(ls.AtExit)+1)
+					ls.AtExit = append(ls.AtExit, x)
 				case "variant":
 					ls.Variant = x
 				default:
